@@ -14,6 +14,7 @@ import (
 	"sort"
 	"strconv"
 	"strings"
+	"sync"
 
 	"github.com/Dash-Industry-Forum/livesim2/pkg/scte35"
 	"github.com/Eyevinn/mp4ff/mp4"
@@ -525,6 +526,8 @@ type windowIn struct {
 	SegDur  uint64 `json:"nominal_seg_dur"`
 	IsVideo bool   `json:"is_video"`
 	Prefix  string `json:"url_prefix,omitempty"` // e.g. "chunkdur_0.5/" (chunked low-latency delivery)
+	// Concurrent: observed while many other segment requests were served at the same time
+	Concurrent bool `json:"concurrent,omitempty"`
 }
 
 type segObs struct {
@@ -993,6 +996,7 @@ func runC13(c *lib.Ctx) error {
 		assets = append(assets, a)
 	}
 	streamSeconds := uint64(0)
+	concTerms := 0 // concurrent observations that are both oracle-checked and replayed by the model
 	maxSecond := uint64(0)
 	oracleSegs := 0
 	// window fetches count consecutive video segments, evaluates the oracle on all of them and hands
@@ -1177,6 +1181,89 @@ func runC13(c *lib.Ctx) error {
 			}
 		}
 	}
+	// ------------------------------------------------------------ many requests at the same time on the same server
+	// (several players and representations ask for the same and for neighbouring segments, with all three
+	// scte35 settings mixed): every response must carry exactly the events whose announce instant lies
+	// in its own interval, with consistent fields, whatever else the server is doing
+	{
+		type cjob struct {
+			a  *assetInfo
+			n  int
+			nr int
+			so segObs
+			e  error
+		}
+		var jobs []*cjob
+		for _, a := range assets {
+			if strings.HasPrefix(a.Name, "WAVE") {
+				continue
+			}
+			for k := 0; k < 90*scale; k++ {
+				n := 1 + rng.Intn(3)
+				m := uint64(rng.Intn(20000))
+				off := offsetsDoc[n][rng.Intn(len(offsetsDoc[n]))]
+				nr := int((m*60+off-7)*a.TS/a.SegDur) - 1 + rng.Intn(3)
+				if nr < 0 {
+					nr = 0
+				}
+				for rep := 0; rep < 3; rep++ { // the same segment several times, and for the other settings
+					jobs = append(jobs, &cjob{a: a, n: n, nr: nr}, &cjob{a: a, n: 1 + (n+rep)%3, nr: nr})
+				}
+			}
+		}
+		rng.Shuffle(len(jobs), func(i, k int) { jobs[i], jobs[k] = jobs[k], jobs[i] })
+		ch := make(chan *cjob, len(jobs))
+		for _, j := range jobs {
+			ch <- j
+		}
+		close(ch)
+		var wg sync.WaitGroup
+		for w := 0; w < 32; w++ {
+			wg.Add(1)
+			go func() {
+				defer wg.Done()
+				for j := range ch {
+					j.so, j.e = fetchSeg(ls, j.a, j.a.VideoRep, j.n, j.nr, j.a.SegDur, j.a.TS)
+				}
+			}()
+		}
+		wg.Wait()
+		for k, j := range jobs {
+			if j.e != nil {
+				return j.e
+			}
+			idn, id := r.id()
+			w := windowIn{Kind: "window", Asset: j.a.Name, Rep: j.a.VideoRep, N: j.n, FirstNr: j.nr, Count: 1, Nr: j.nr, TS: j.a.TS, SegDur: j.a.SegDur, IsVideo: true, Concurrent: true}
+			c.Count("segment:concurrent")
+			oracleSegs++
+			so := j.so
+			want := scheduledAnnouncedIn(so.Start, so.Start+so.Dur, j.a.TS, j.n)
+			before := len(c.Res.OracleFailures)
+			if len(so.Emsgs) > 1 {
+				c.Fail(id, "two-events-in-segment", fmt.Sprintf("segment %d carries %d emsg boxes", so.Nr, len(so.Emsgs)), w)
+			}
+			for _, e := range so.Emsgs {
+				checkEvent(c, id, e, j.a.TS, j.n, w)
+			}
+			switch {
+			case len(want) == 1 && len(so.Emsgs) == 0:
+				c.Fail(id, "event-missing", fmt.Sprintf("%s scte35_%d segment %d (%d,%d]/%d contains the announce instant of splice %d s: no event", j.a.Name, j.n, so.Nr, so.Start, so.Start+so.Dur, j.a.TS, want[0]/j.a.TS), w)
+			case len(want) == 0 && len(so.Emsgs) > 0:
+				c.Fail(id, "wrong-segment", fmt.Sprintf("%s scte35_%d segment %d (%d,%d]/%d carries an event for %d whose announce instant is outside it", j.a.Name, j.n, so.Nr, so.Start, so.Start+so.Dur, j.a.TS, so.Emsgs[0].PT), w)
+			case len(want) == 1 && len(so.Emsgs) == 1 && so.Emsgs[0].PT != want[0]:
+				c.Fail(id, "wrong-segment", fmt.Sprintf("%s scte35_%d segment %d carries an event for %d, expected %d", j.a.Name, j.n, so.Nr, so.Emsgs[0].PT, want[0]), w)
+			}
+			for i := before; i < len(c.Res.OracleFailures); i++ {
+				c.Res.OracleFailures[i].Key = "concurrent:" + c.Res.OracleFailures[i].Key
+			}
+			if len(c.Res.OracleFailures) > before || k%6 == 0 {
+				c.Res.Inputs[id] = w
+				np := j.n
+				concTerms++
+				r.terms = append(r.terms, fmt.Sprintf("CSeg %d true %s %d %d %d %s", idn, optZ(&np), so.Start, so.Dur, j.a.TS, obsTerm(so.O)))
+			}
+		}
+	}
 	// other representations (text, image) never carry events; the text adaptation sets of the MPD
 	// have no InbandEventStream (testpic_2s has IMSC1 text/image subtitle tracks and thumbnails)
 	for _, n := range []int{1, 2, 3} {
@@ -1253,7 +1340,7 @@ func runC13(c *lib.Ctx) error {
 		r.terms = append(r.terms, fmt.Sprintf("CCfg %d %s %d", idn, optZ(&nn), resp.Status))
 	}
 
-	c.Res.Evaluations = len(r.terms) + oracleSegs - c.Res.Distribution["segment:first-hours"] - c.Res.Distribution["segment:contiguous-minute"] - c.Res.Distribution["segment:far-minute"] - c.Res.Distribution["segment:around-announce"] - c.Res.Distribution["segment:chunked-minute"]
+	c.Res.Evaluations = len(r.terms) + oracleSegs - c.Res.Distribution["segment:first-hours"] - c.Res.Distribution["segment:contiguous-minute"] - c.Res.Distribution["segment:far-minute"] - c.Res.Distribution["segment:around-announce"] - c.Res.Distribution["segment:chunked-minute"] - concTerms
 	c.Res.ModelCases = len(r.terms)
 	c.Res.DistinctNontrivial = len(r.distinct)
 	c.Res.Rule = fmt.Sprintf("direct CreateEmsgAhead calls (start/end exactly on, one tick before/after every announce instant; segments straddling a minute; random; PTS and id wrap; other N; inverted/long segments; timescale 0; uint64 wrap), direct CreateSpliceInsertPayload calls with random parameters, and video segments served by the in-process server for testpic_2s/6s/8s and the 29.97 fps WAVE asset with scte35_1/2/3: every segment of the first 3 h (10 h in the thorough tier; WAVE: sampled minutes) plus single minutes around multiples of 2^33/90000 s and up to ~57 years from the epoch (%d s of stream fetched and checked by the oracle; of the first hours the model replays a random 1/8 of the segments with an event or next to an announce instant and 1/60 of the rest, of the other windows all of the former and 1/10 of the latter; latest minute below 200000 s ends at %d s); audio segments, scte35 off, MPDs, rejected N. distinct = distinct inputs; non-trivial = an event (emsg) was produced", streamSeconds, maxSecond)
